@@ -44,7 +44,7 @@ Judge(r) ==
       completed == r.exc = ""
       ack == IF r.written THEN r.ack ELSE <<>>
   IN IF ~completed THEN {}
-     ELSE IF Prop = "C05" THEN C05Fails(r.hist, rep, ack, r.verdict, r.ver, Truncated(ack))
+     ELSE IF Prop = "C05" THEN C05Fails(r.hist, rep, ack, r.verdict, r.ver, TruncatedInBlocks(ack))
      ELSE C06Fails(ack, r.ver, r.reread, r.reval, r.hist, rep)
 Drift(r) ==
   LET t == Replay(TInit, r.calls, 1) IN
